@@ -1,3 +1,4 @@
+use std::collections::HashSet;
 use std::ops::ControlFlow;
 use std::sync::{Arc, RwLock};
 
@@ -16,7 +17,7 @@ use futures::future::{ready, BoxFuture};
 use tokio::task::{self};
 
 use ide::analysis::{Analysis, AnalysisHost};
-use ide::file_system::FileSystem;
+use ide::file_system::{FileId, FileSystem};
 
 use crate::vfs::{UrlExt, Vfs};
 use crate::{from_proto, to_proto};
@@ -26,6 +27,8 @@ pub struct Server {
     vfs: Arc<RwLock<Vfs>>,
     client: ClientSocket,
     diagnostic_version: i32,
+    // files of the workspace diagnostics were last published for
+    diagnosed_files: HashSet<FileId>,
 }
 
 impl Server {
@@ -58,6 +61,7 @@ impl Server {
             vfs: Arc::new(RwLock::new(Vfs::new())),
             client,
             diagnostic_version: 0,
+            diagnosed_files: HashSet::new(),
         }
     }
 }
@@ -288,7 +292,21 @@ impl Server {
     fn update_diagnostics(&mut self) {
         let diag_version = self.bump_diagnostic_version();
         let mut client = self.client.clone();
-        self.spawn_with_snapshot((), move |snap, _| {
+
+        // a file that was part of the workspace the last time and no longer is gets its diagnostics cleared
+        let current: HashSet<FileId> = self.host.analysis().workspace_files().into_iter().collect();
+        let dropped: Vec<FileId> = self.diagnosed_files.difference(&current).copied().collect();
+        self.diagnosed_files = current;
+
+        self.spawn_with_snapshot(dropped, move |snap, dropped| {
+            for file_id in dropped {
+                let file_uri = UrlExt::from_file_path(snap.vfs.path_for_file(&file_id));
+                let params = PublishDiagnosticsParams::new(file_uri, Vec::new(), Some(diag_version));
+                client
+                    .publish_diagnostics(params)
+                    .expect("failed to publish diagnostics");
+            }
+
             for (file_id, diagnostics) in snap.analysis.diagnostics() {
                 let line_index = snap.analysis.line_index(file_id);
                 let lsp_diags = diagnostics
